@@ -112,7 +112,28 @@ def trio_disconnected_worlds(tier):
                     yield mk_trio(seed, 4, vk, menu), opts, [("C", "F", "M")]
 
 
-def mk_trio(seed, k, vk, menu):
+def trio_contradicted_worlds(tier):
+    """trio, --distrust-genotypes, k = 4, components {0,1} (child's reads) and {2,3} (mother's reads): the VCF
+    claims 0/1 for a parent at one variant where all of that parent's reads (covering the variant and its partner)
+    carry one allele, so that phasing may turn the call homozygous - and a homozygous call joins the master block"""
+    T = tier == "thorough"
+    seed = int(os.environ.get("VERIF_SEED", "0")) + 35
+    for vk in itertools.product(VKINDS, repeat=4):
+        for v in range(4):
+            member = {"Fhom": "F", "Mhom": "M"}.get(vk[v])
+            if member is None:
+                continue
+            if not T and sum(1 for x in vk if x in ("Fhom", "Mhom")) > 2:
+                continue
+            partner = v ^ 1
+            for gh in (True, False) if T else (True,):
+                for depth in (1, 3):
+                    w = mk_trio(seed, 4, vk, (("C", (0, 1)), ("M", (2, 3)), (member, tuple(sorted((v, partner))))), depth=depth)
+                    w["vcf_gt_override"] = {member: {"chrA": {v: "0/1"}}}
+                    yield w, dict(tag="PS", genetic_haplotyping=gh, distrust_genotypes=True), [("C", "F", "M")]
+
+
+def mk_trio(seed, k, vk, menu, depth=1):
     vs = [{"pos": 60 + 40 * i, "kind": "SNV", "len": 1} for i in range(k)]
     F, M, C = [], [], []
     for kind in vk:
@@ -132,7 +153,7 @@ def mk_trio(seed, k, vk, menu):
     for s, sub in menu:
         segs = segments(sub)
         for h in (0, 1):
-            world["reads"].append({"sample": s, "chrom": "chrA", "hap": h, "segs": [[a, b, 5, 5] for a, b in segs], "link": "N", "n": 1})
+            world["reads"].append({"sample": s, "chrom": "chrA", "hap": h, "segs": [[a, b, 5, 5] for a, b in segs], "link": "N", "n": depth})
     for s in ("F", "M", "C"):
         world["haps"][s]["chrA"] = ["hom0" if e == [0, 0] else "hom1" if e == [1, 1] else e for e in world["haps"][s]["chrA"]]
     return world
@@ -173,6 +194,15 @@ def components_of(positions, read_position_lists, master=None):
     return comp
 
 
+def rec_gt_called(parsed, chrom, pos0, sample):
+    si = parsed["samples"].index(sample)
+    for rec in parsed["records"]:
+        if rec["chrom"] == chrom and rec["pos"] - 1 == pos0:
+            g, _ = synth.gt_parse(rec["calls"][si].get("GT"))
+            return g is not None and None not in g
+    return False
+
+
 _scratch = None
 
 
@@ -205,14 +235,28 @@ def judge(inst):
         fam = t["family"]
         acc = t["accessible_positions"]
         reads = [[x[0] for x in r["variants"]] for r in t["reads"]]
+        # genotypes as stated by the OUTPUT (equal to the input unless --distrust-genotypes changed them)
+        out_hom = {}
+        for rec in parsed["records"]:
+            if rec["chrom"] != t["chromosome"]:
+                continue
+            for si, s in enumerate(parsed["samples"]):
+                g, _ = synth.gt_parse(rec["calls"][si].get("GT"))
+                out_hom[(s, rec["pos"] - 1)] = g is None or None in g or len(set(g)) == 1
         if opts.get("distrust_genotypes"):
-            # with distrusted genotypes a read links only the variants that are heterozygous in its own sample
+            # with distrusted genotypes the reads carry every variant; a read links only the variants that come out
+            # phased in its own sample (a call the run leaves homozygous or undecided is no link of a chain of
+            # phased variants)
             id2name = {v: k for k, v in t["sample_ids"].items()}
-            pos2vi = {v["pos"]: vi for vi, v in enumerate(world["chroms"][0]["variants"])}
+            out_phased = set()
+            for rec in parsed["records"]:
+                if rec["chrom"] == t["chromosome"]:
+                    for si, s in enumerate(parsed["samples"]):
+                        if synth.decode_phase(rec["calls"][si]):
+                            out_phased.add((s, rec["pos"] - 1))
             reads = []
             for r in t["reads"]:
-                ent = world["haps"][id2name[r["sample_id"]]][t["chromosome"]]
-                reads.append([x[0] for x in r["variants"] if ent[pos2vi[x[0]]] not in ("hom0", "hom1", "miss")])
+                reads.append([x[0] for x in r["variants"] if (id2name[r["sample_id"]], x[0]) in out_phased])
         # cross-check the traced reads against the read list written by the tool
         names_trace = sorted(r["name"] for r in t["reads"])
         master = None
@@ -223,7 +267,10 @@ def judge(inst):
                 if c["name"] != t["chromosome"]:
                     continue
                 for vi, v in enumerate(c["variants"]):
-                    if any(world["haps"][s][c["name"]][vi] in ("hom0", "hom1") for s in fam) and v["pos"] in acc:
+                    scen = any(world["haps"][s][c["name"]][vi] in ("hom0", "hom1") for s in fam)
+                    if opts.get("distrust_genotypes"):
+                        scen = any(out_hom.get((s, v["pos"]), False) and rec_gt_called(parsed, t["chromosome"], v["pos"], s) for s in fam)
+                    if scen and v["pos"] in acc:
                         master.append(v["pos"])
         comp = components_of(acc, reads, master)
         nraw = sum(r.get("n", 1) for r in world["reads"])
@@ -274,6 +321,7 @@ def run(rep, tier, seed, only=None):
         if not only or "trio" in only:
             yield from trio_worlds(tier)
             yield from trio_disconnected_worlds(tier)
+            yield from trio_contradicted_worlds(tier)
 
     st = par.explore(space, run_one, label="C03")
     rep.add_violations(st.violations)
